@@ -69,6 +69,7 @@ bool World::exec_detect_op(const Step& s)
         return true;
     }
     DiskImage img = g_disk.snapshot();
+    log.u64(g_disk.image_hash());
     const std::string legacy_m = dir + "/m.db", legacy_p = dir + "/p.db", d2dir = dir + "/Database2", d2_m = d2dir + "/m.db";
     const std::string own_m = v2 ? d2_m : legacy_m;
 
